@@ -577,24 +577,11 @@ func c02BodyCallees(f *an.Func, rs *ast.RangeStmt) []string {
 // keys tie (or compare the unique key only).
 func c02Comparators(c *rep.Ctx) {
 	p := c.Prog
-	amount := p.LookupField("types", "Vote", "Amount")
-	cand := p.LookupField("types", "Vote", "Candidate")
-	if f := c.Fn("types.(VoteList).Less"); f != nil {
-		g := f.Graph()
-		info := f.Info()
-		ok := amount != nil && cand != nil && readsField(info, f.Body, amount) && readsField(info, f.Body, cand)
-		// every return that decides by the candidate is reached only on a tie of the amounts, and a tie never returns a constant
-		tie := false
-		for _, r := range g.Returns() {
-			rs := r.Ast.(*ast.ReturnStmt)
-			if len(rs.Results) == 1 && readsField(info, rs.Results[0], cand) {
-				tie = true
-			}
-		}
-		c.Check("comparator", "types.(VoteList).Less|tie-break", f.Pos(), ok && tie, "the vote ranking comparator orders by amount and breaks ties by the candidate identifier (a total order on distinct candidates)")
-		// Swap and Len operate on the same slice
-		c.CheckTrivial("comparator", "types.(VoteList).Less|fields", f.Pos(), ok, "reads Vote.Amount and Vote.Candidate")
-	}
+	// the vote ranking comparator: decided by the rank-total rule shared with C15
+	// (primary comparison of the whole amounts of elements i and j, strict
+	// tie-break on the whole candidate of i versus j; the sliced peer-id
+	// tie-break is the known finding D1 recorded under C15)
+	(&c15Env{c: c, p: p, sys: p.Pkg("contract/system"), nm: p.Pkg("contract/name")}).rankLess()
 	// voting-power rank tree: power, then id
 	if f := c.Fn("contract/system.newTopVoters$1"); f != nil {
 		info := f.Info()
